@@ -109,6 +109,28 @@ def rand_res(rng, allow_zero=True) -> float:
     return float(rng.choice([1, -1]) * m * F(2) ** j)
 
 
+def near_count_case(rng):
+    """(x0, x1, res, off_pix, tol): the span is a whole number of pixels k plus/minus eps, eps on both sides of
+    tol (and 0), for both signs of the resolution, snapping and floating; all quantities dyadic so that the float
+    arithmetic of the code is exact"""
+    j = rng.randint(-6, 4)
+    m = rng.choice([1, 1, 1, 3, 5])
+    res = float(rng.choice([1, -1]) * m * F(2) ** j)
+    a = abs(F(res))
+    tol = rng.choice([F(1, 128), F(1, 128), F(1, 128), F(1, 4), F(1, 2 ** 20), F(0.01), F(1e-6), F(0)])
+    e = rng.choice([F(1, 2 ** 20), F(1, 2 ** 24), F(1, 2 ** 30)])
+    eps = rng.choice([e, -e, tol - e, -(tol - e), tol, -tol, tol + e, -(tol + e), tol / 2, -tol / 2, F(0)])
+    k = rng.choice([1, 1, 2, 3, 6, 7, 30, 1000, 4096])
+    off = rng.choice([None, None, None, 0, 0.5, 0.25])
+    o = F(0) if off is None else F(off)
+    q0 = F(rng.choice([0, 1, -3, 37, -129, 1001])) + rng.choice([F(0), F(0), e, -e, F(1, 4), F(-3, 8), tol / 2])
+    if off is None and rng.random() < 0.5:
+        q0 = F(rng.randint(-2 ** 16, 2 ** 16), 2 ** 10)            # floating: any origin
+    x0 = float((q0 + o) * a)
+    x1 = float(F(x0) + (k + eps) * a)
+    return x0, x1, res, off, float(tol)
+
+
 def grid_case(rng):
     """(x0, x1, res, off_pix, tol): one-axis snapping input of the exactness domain."""
     res = rand_res(rng)
@@ -231,8 +253,8 @@ def gen_cases(out, tier):
         add("pow2", f"CPow2 {cz(x)} {cz(M.align_up_pow2(x))} {cz(M.align_down_pow2(x))}", x)
 
     # --- one axis snapping
-    for i in range(900 * mult):
-        x0, x1, res, off, tol = grid_case(rng)
+    for i in range(1250 * mult):
+        x0, x1, res, off, tol = grid_case(rng) if i % 25 < 18 else near_count_case(rng)
         which = i % 5
         if which == 0:
             if not exact("snap_edge", M._snap_edge, x0, x1, res, tol):
@@ -489,12 +511,18 @@ def p_snap_grid(x0, x1, res, off, tol):
         ok = ok and F(tx) == (F(x0) if res > 0 else F(x1))
         far = hi - F(x1) if res > 0 else F(x0) - lo
         ok = ok and far <= a and (x0 == x1 or far < a)
+        if nx >= 2 and t <= F(1, 2):
+            ok = ok and (nx - 1) * a <= F(x1) - F(x0) - t * a            # minimal count: nx-1 pixels would not cover up to tol
     else:
         ok = ok and F(x0) - lo < a                                    # minimal on the low side
         ok = ok and hi - F(x1) <= (1 + t) * a and (x0 == x1 or hi - F(x1) < (1 + t) * a)
         if nx >= 2:
             ok = ok and hi - F(x1) < a
         ok = ok and (F(tx) / a - F(off)).denominator == 1             # aligned to the pixel fraction
+        if t <= F(1, 2):                                              # minimal count among aligned grids covering up to tol
+            ok = ok and F(x0) + t * a <= lo + a                       # cannot start one pixel later
+            if nx >= 2:
+                ok = ok and hi - a <= F(x1) - t * a                   # cannot end one pixel earlier
     return ok, f"snap_grid -> tx={tx!r} nx={nx} lo={float(lo)!r} hi={float(hi)!r}"
 
 
